@@ -22,6 +22,7 @@ EXPLANATION = (
     "Guard dominance over every work-list push of ModuleEntryIterator (T5/T7), gating conditions of each followed edge kind "
     "(T5), arm table of the walker's state machine (T8) and who-supplies-entries for the error iterator (T3)."
 )
+EXPLANATION += " " + 'Plus: unguarded seeding happens before anything else is marked seen, operator of the types-only kind test.'
 NOT_DECIDED = "set equality of the visited set with reachability for all graphs"
 CONFIGS = ["default", "nofastcheck"]  # thorough tier also analyses the build without fast_check / symbols
 ASSUMPTIONS = ["caller-supplied roots are distinct (documented: roots are a set)"]
